@@ -83,18 +83,22 @@ func zzSameState(a, b *zzKV, da, db_ DB) {
 // NewDB, reads its commit offset and replays from commit offset + 1. States and responses must be equal.
 func ZZReplayEq(e0, e1, e2, flushed, crashAt int) {
 	kinds := []int{e0, e1, e2}
-	ts := uint64(vInt64("ts"))
-	vAssume(ts < 1<<40)
+	// every entry carries its own timestamp, chosen by whoever was leader: NOT necessarily increasing
+	tss := make([]uint64, len(kinds))
+	for i := range tss {
+		tss[i] = vUint64("ts")
+		vAssume(tss[i] < 1<<40)
+	}
 	ma, mb := &zzKV{}, &zzKV{}
 	da, dbb := zzOpen(ma), zzOpen(mb)
 	var ra, rb [3]*proto.WriteResponse
 	for i, k := range kinds {
-		r, err := da.ProcessWrite(zzEntry(k), int64(i), ts+uint64(i), NoOpCallback)
+		r, err := da.ProcessWrite(zzEntry(k), int64(i), tss[i], NoOpCallback)
 		vAssert("live-apply-ok", err == nil)
 		ra[i] = r
 	}
 	for i := 0; i < crashAt; i++ {
-		r, err := dbb.ProcessWrite(zzEntry(kinds[i]), int64(i), ts+uint64(i), NoOpCallback)
+		r, err := dbb.ProcessWrite(zzEntry(kinds[i]), int64(i), tss[i], NoOpCallback)
 		vAssert("apply-ok", err == nil)
 		rb[i] = r
 		if i+1 == flushed {
@@ -111,7 +115,7 @@ func ZZReplayEq(e0, e1, e2, flushed, crashAt int) {
 	vAssert("commit-offset-is-last-durable-entry", c == int64(flushed)-1)
 	vAssert("commit-offset-not-ahead-of-log", c < 3)
 	for i := int(c) + 1; i < 3; i++ {
-		r, err := dbb.ProcessWrite(zzEntry(kinds[i]), int64(i), ts+uint64(i), NoOpCallback)
+		r, err := dbb.ProcessWrite(zzEntry(kinds[i]), int64(i), tss[i], NoOpCallback)
 		vAssert("replay-apply-ok", err == nil)
 		rb[i] = r
 	}
